@@ -1,5 +1,5 @@
 (* C11 - End of stack is told apart from truncation; null is never a frame. *)
-From FH Require Import Consts Word X86 A64 Unwinder X86Unw A64Unw X86Exec A64Exec A64Walk IterFacts HistFacts StaticFacts TruncFacts TruncWalk.
+From FH Require Import Consts Word X86 A64 Unwinder X86Unw A64Unw X86Exec A64Exec A64Walk IterFacts ModFacts HistFacts StaticFacts TruncFacts TruncWalk.
 From Coq Require Import List. Import ListNotations.
 Open Scope N_scope.
 
@@ -99,10 +99,5 @@ Print Assumptions C11_walk_truncation_a64.
 Example C11_all_static_example :
   all_static rule mdata cb_static_x86 (mkunw mdata [mkmod 0x1000 0x2000 0x1000 0 MNone] 0).
 Proof.
-  intros x first md rel H. unfold find_module in H. cbn [mods find_cand] in H.
-  destruct (mstart _ =? x); [|destruct (x <? mstart _); [|unfold check_end in H; destruct (mend _ <=? x)]];
-    try discriminate;
-    (destruct (x <? base_avma _); [discriminate|]; unfold res_bind, sub64p in H;
-     destruct (base_avma _ <=? x); [|discriminate]; destruct (_ <? W32); [|discriminate];
-     inversion H; subst; cbn; discriminate).
+  intros x first md rel H. destruct (find_module_only_container _ _ _ _ _ H) as [[<-|[]] _]. cbn. discriminate.
 Qed.
